@@ -806,6 +806,7 @@ def _parse_setup_py(
         sys, 'argv', ['setup.py', 'egg_info'],
     )
     # fmt: on
+    saved_sys_path = list(sys.path)
     with patches:
         try:
             sys.path.insert(0, abs_setupdir)
@@ -823,8 +824,8 @@ def _parse_setup_py(
         finally:
             if old_cythonize is not None:
                 Cython.Build.cythonize = old_cythonize
-            if abs_setupdir in sys.path:
-                sys.path.remove(abs_setupdir)
+            # Undo whatever the setup script did to sys.path (insertions included).
+            sys.path[:] = saved_sys_path
 
             if load_source_patch is not None:
                 end_patch(load_source_patch)
